@@ -2,11 +2,15 @@
    Kernel-checked for an arbitrary number formatter: the append contract, and that
    the byte-level writers (literal prefixes, member splice, position-index
    threading) emit exactly the text of a JSON object tree whose first member is
-   "type" with the kind's name, a text of the RFC 8259 grammar.  That the model's
-   writers are the Go writers is checked on every run byte for byte; that Parse
-   and the constructors only build well-formed objects (the theorem's hypotheses)
-   is exercised by the same streams, not proved. *)
-From GJ Require Import Base JsonConst Json JsonProofs EmitProofs JsonGrammar EmitWellFormed.
+   "type" with the kind's name, a text of the RFC 8259 grammar.  For objects built
+   through Parse the theorem's hypotheses are proved too (ParsedForm.v,
+   ParsedLex.v): whatever Parse returns for a document of JSON tokens with finite
+   numbers serialises to a text of the grammar, under every option set.  That the
+   model's writers are the Go writers is checked on every run byte for byte; that
+   the constructors (NewPoint .. NewFeature with arbitrary member strings) only
+   build objects meeting the hypotheses is exercised by the same streams, not
+   proved. *)
+From GJ Require Import Base JsonConst Json JsonProofs EmitProofs JsonGrammar EmitWellFormed ParsedForm ParsedLex.
 
 (* AppendJSON(prefix) = prefix followed by exactly JSON()'s bytes, the prefix untouched *)
 Theorem C17_append_contract : forall (fmt : Z -> list Z) dst o,
@@ -47,6 +51,14 @@ Proof. exact emit_is_print. Qed.
 Theorem C17_print_is_json : forall v, lex_ok v = true -> json_text (print_min v) v.
 Proof. exact print_min_is_json. Qed.
 
+(* objects built through Parse: no hypothesis on the object is left *)
+Theorem C17_parsed_objects_write_json : forall (fmt : Z -> list Z), (forall k, num_lexeme (fmt k) = true) ->
+  forall fuel o one v g, fin_doc v = true -> lex_ok v = true -> parse fuel o one v = POk g ->
+  json_text (emit fmt g) (emit_jv fmt g) /\
+  exists rest, emit_jv fmt g = JObj ((key s_type, str_jv (type_name g)) :: rest).
+Proof. exact parsed_bytes_are_json. Qed.
+
 Print Assumptions C17_bytes_are_a_json_object.
+Print Assumptions C17_parsed_objects_write_json.
 Print Assumptions C17_append_contract.
 Print Assumptions C17_rect_as_polygon.
